@@ -191,7 +191,8 @@ pub fn bracket_depth(text: &str) -> usize {
 
 /// A kitchen-sink program in which every expression / item form occurs once (rendered from the harness AST).
 pub fn kitchen_sink() -> Vec<(String, String)> {
-    families::static_family().into_iter().map(|(n, p)| (n, p.render())).collect()
+    // (the wide / deep programs are left out: token edits do not depend on program size)
+    families::static_family().into_iter().filter(|(n, _)| !families::is_large(n)).map(|(n, p)| (n, p.render())).collect()
 }
 
 /// Seed program texts: family samples covering every form, the static family, the shipped examples.
